@@ -175,9 +175,19 @@ def run_jobs(fn, jobs, nproc=16, hang_s=900, spawn=False):
 
 
 class Stopwatch:
-    def __init__(self, budget_s):
+    def __init__(self, budget_s, max_credit=0.0):
         self.t0 = time.monotonic()
         self.budget = budget_s
+        self.max_credit = max_credit
+        self.credited = 0.0
+
+    def credit(self, seconds):
+        """Give time back that was spent compiling (a run far slower than normal), within a cap, so
+        that operations with many numba specialisations still get their share of runs."""
+        c = min(seconds, self.max_credit - self.credited)
+        if c > 0:
+            self.credited += c
+            self.budget += c
 
     def left(self):
         return self.budget - (time.monotonic() - self.t0)
